@@ -81,6 +81,10 @@ def _ident():
         inst.SOPClassUID = "1.2.840.10008.5.1.4.1.1.2"
         inst.SOPInstanceUID = "1.2.3.4"
         inst.PatientID = "1"
+        from pydicom.dataset import FileMetaDataset
+
+        inst.file_meta = FileMetaDataset()
+        inst.file_meta.TransferSyntaxUID = IVR
         _FX["ident"] = (ds, encode(ds, True, True), inst)
     return _FX["ident"]
 
@@ -321,6 +325,12 @@ def _scp_part(ctx, code):
         if not rsps:
             ctx.cls("scp-no-response:" + label)
             continue
+        if code == 0xFF00:
+            # harness self-check: with a Pending code the scripted peer / move destination really performed the sub-operations
+            if service == "get" and seq_txt != ["store-rq", "rsp:0xFF00", "store-rq", "rsp:0xFF00", "rsp:0x0000"] and not ctx.replaying:
+                _FX.setdefault("selfcheck", []).append(f"get: {seq_txt}")
+            if service == "move" and a._store_assoc.stored != 2 and not ctx.replaying:
+                _FX.setdefault("selfcheck", []).append(f"move: {seq_txt} stored={a._store_assoc.stored}")
         desc = f"SCP {label} ({impl}): handler yielded 0x{code:04X} then 0xFF00; sent {seq_txt}, move sub-operations={a._store_assoc.stored}"
         # (1) nothing follows a non-Pending response
         for i, (k, s) in enumerate(seq):
@@ -419,6 +429,9 @@ def run(ctx):
     full = _interesting() if ctx.quick else set(range(0x10000))
     mine = [c for c in range(0x10000) if c % ctx.nshards == ctx.shard]
     ctx.each("code", ({"code": c, "depth": "full" if c in full else "fast"} for c in mine))
+    if _FX.get("selfcheck") and not ctx.violations:
+        # only a harness problem when the tree otherwise behaves (a mutated SCP legitimately changes the sequence)
+        raise HarnessError(f"scripted sub-operation peers did not behave as intended: {_FX['selfcheck']}")
     ctx.exhaustive = True
     ctx.extra["exhaustive_scope"] = (
         "all 65536 codes: classification, table agreement, SCU iterators; "
